@@ -8,6 +8,7 @@ import (
 	"regexp"
 	"strconv"
 	"strings"
+	"unicode/utf16"
 )
 
 // The StringNumericLiteral grammar of ECMA 262 5.1 - 9.3.1 (after trimming white space).
@@ -79,6 +80,9 @@ func (v Value) float64() float64 {
 		return value
 	case string:
 		return parseNumber(value)
+	case []uint16:
+		// A String value kept as UTF-16 code units (String.fromCharCode, unpaired surrogates)
+		return parseNumber(string(utf16.Decode(value)))
 	case *object:
 		return value.DefaultValue(defaultValueHintNumber).float64()
 	}
